@@ -953,7 +953,7 @@ func (eval Evaluator) MulThenAdd(op0 *rlwe.Ciphertext, op1 rlwe.Operand, opOut *
 			return fmt.Errorf("cannot MulThenAdd: %w", err)
 		}
 
-		opOut.Resize(op0.Degree(), opOut.Level())
+		opOut.Resize(utils.Max(op0.Degree(), opOut.Degree()), level)
 
 		// Gets the ring at the minimum level
 		ringQ := eval.GetParameters().RingQ().AtLevel(level)
@@ -1002,7 +1002,7 @@ func (eval Evaluator) MulThenAdd(op0 *rlwe.Ciphertext, op1 rlwe.Operand, opOut *
 			return fmt.Errorf("cannot MulThenAdd: %w", err)
 		}
 
-		opOut.Resize(op0.Degree(), opOut.Level())
+		opOut.Resize(utils.Max(op0.Degree(), opOut.Degree()), level)
 
 		// Gets the ring at the target level
 		ringQ := eval.GetParameters().RingQ().AtLevel(level)
